@@ -104,7 +104,7 @@ func genEnum(stream string, limit int, outp string) {
 		return
 	}
 	// delta
-	types := []string{"EDS", "WDS"}
+	types := []string{"EDS", "CDS", "WDS"}
 	subU, unsubU, stateU := []string{"a", "*"}, []string{"a", "*"}, []string{"a"}
 	inits := [][]string{nil}
 	if thorough {
